@@ -95,6 +95,8 @@ def floor_offset(prog, t, acc, cls, depth=0):
                     return r
         if last in ("floor", "floorf") and a and a[0] == ("coord",):
             return ("off", 0)             # std / libm / micromath floor: trusted (their accuracy is not this property's business)
+        if last in ("min", "max", "clamp") and a and a[0][0] == "off" and all(x[0] == "int" for x in a[1:]):
+            return a[0]               # clamping the integral part against constants only matters at the ends of the range
         if last == "is_sign_negative" and a and a[0] == ("coord",):
             return ("int", 1 if neg else 0)
         if last in ("saturating_sub", "wrapping_sub", "saturating_add", "wrapping_add") and len(a) == 2 and a[0][0] == "off" and a[1][0] == "int":
@@ -146,6 +148,12 @@ def floor_offset(prog, t, acc, cls, depth=0):
             if x[0] in ("bad", "unknown"):
                 return x
         return ("unknown", "comparison %s" % T.show(t)[:50])
+    if t[0] == "bin" and t[1] in ("Add", "Sub") and len(t) >= 5 and str(t[4]).startswith("f"):
+        ops = [T.strip(x, refs=True, sites=True) for x in (t[2], t[3])]
+        consts = [o for o in ops if o[0] == "const" and isinstance(o[2], float)]
+        if len(consts) == 1 and consts[0][2] != int(consts[0][2]):
+            return ("bad", "the value is shifted by the non-integer constant %s%s before it is truncated: the cell boundaries move by that amount, so part of every cell "
+                           "is assigned to its neighbour" % ("-" if t[1] == "Sub" else "+", consts[0][2]))
     if t[0] == "bin" and len(t) >= 5 and str(t[4]).startswith("f"):
         return ("bad", "float arithmetic (%s) is applied to the coordinate before it is floored: f32 rounding moves values across integer boundaries "
                        "(tiny negatives, magnitudes beyond 2^23)" % t[1])
